@@ -115,6 +115,13 @@ def split_class(groups):
     ven = where(lambda n: n.startswith("venom-") and "-no_" not in n)
     if len(leg) == 1 and len(ven) == 1 and leg != ven:
         return "legacy-vs-venom"
+    # a disable flag shared by every deviating configuration and absent from the majority group (tier independent)
+    from vlib.configs import USABLE_FLAGS
+    minority = [n for g in groups[1:] for n in g]
+    for f in USABLE_FLAGS:
+        tag = "-" + f.replace("disable_", "no_")
+        if all((tag + "-") in (n + "-") for n in minority) and not any((tag + "-") in (n + "-") for n in groups[0]):
+            return "flag:" + f
     return groups[1][0]
 
 
@@ -444,6 +451,34 @@ def f2() -> int8:
     self.s2[0x1111111111111111111111111111111111111111] += (convert(v0, uint64) % 9223372036854775808)
     self.last = self.s2[0x1111111111111111111111111111111111111111]
     return 2
+"""),
+    ("regress/disable_remove_unused_variables_loop_skipped", """
+struct St0:
+    m0: bool
+    m1: uint256
+
+event Ev0:
+    x: uint256
+
+s0: uint256
+s1: int64
+
+@internal
+def g2() -> bool:
+    v0: bool[3] = [False, False, False]
+    for v3: bool in v0:
+        self.s1 *= (0 if v3 else 0)
+    return (0 <= self.s0)
+
+@external
+def f0() -> uint256:
+    v0: St0[3] = [St0(m0=True, m1=7), St0(m0=False, m1=1), St0(m0=True, m1=41669521475666545528433312542849488504446431018635365436075337482266487065117)]
+    self.s0 = v0[2].m1
+    self.g2()
+    for v1: uint256 in range((self.s0 % 6), bound=5):
+        log Ev0(x=v1)
+    assert self.g2()
+    return self.s0 % 6
 """),
     ("regress/venom_loop_load_forwarding", """
 s1: uint64
